@@ -398,7 +398,7 @@ def r6_display(ctx):
 
 # ---------------------------------------------------------------------------------------------- evaluation (R0)
 
-LITS = ["Hello ", " \u00e9\u2713 ", " > ", "a}b{c=1 ", "100% \"q\" ", "-", "\n  x"]
+LITS = ["Hello ", " \u00e9\u2713 ", " > ", "a}b{c=1 ", "100% \"q\" ", "-", "\n  x", "tail\n", "\t"]
 VARS = [("name", "{{ name }}"), ("n2", "{{n2}}"), ("count", "{{  count\t}}")]
 TAGS = [("b", "<b>", "</b>"), ("i", "< i >", "</ i >"), ("b", "<b>", "</b>")]
 
@@ -601,7 +601,10 @@ def r0_parse(ctx):
            and "Visitor" in (f.impl_trait or "") and f.name in ("visit_str", "visit_string", "visit_borrowed_str")]
     if not any(f.name == "visit_str" for f in cbs):
         r.missing("ParsedValueSeed::visit_str")
-    sample = [tw for k, tw in enumerate(_gen_values(False)) if k % 3 == 0] + [("a < /b> b", None), ("x <b>y< /b> z", None), ("plain", None), ("", None)]
+    sample = [tw for k, tw in enumerate(_gen_values(False)) if k % 3 == 0] + [("a < /b> b", None), ("x <b>y< /b> z", None), ("plain", None), ("", None),
+                                                                                 # text with leading / trailing / only white space, line ends and tabs is the user's text too
+                                                                                 ("line\n", None), ("\nline", None), ("  two  ", None), ("\n", None), (" ", None), ("a\r\n", None), ("\ttab\t", None),
+                                                                                 ("{{ name }}\n", None), ("<b>x</b> ", None), ("\u00a0nbsp\u00a0", None), ("UPPER lower", None)]
     for cb in cbs:
         bad_cb = None
         m = 0
@@ -657,7 +660,17 @@ def run(ctx):
         b = borrow(k, "C01.R7", r7.title, r7.reason)
         r7.instances += b.instances
         r7.violations += b.violations
-    return rules + [r4_emission(ctx), r5_pairing(ctx), r6_display(ctx), r7]
+    # the t! family: the generated call must hand each supplied value to the setter of its own key
+    from rules import tmacro, absint as _absint
+    r8 = Rule("C01.R8", "t!/td!/tu!: every supplied value reaches the setter of its own key",
+              "`every {{ var }} replaced by the supplied value, every <tag> replaced by the supplied component`: the macro binds the caller's "
+              "argument expressions and passes them to the builder; a binding order in which one argument's expression sees another argument's "
+              "key already rebound (`a = b, b = a`) renders a different value than the one supplied", floor=1)
+    try:
+        tmacro.check(ctx, r8, rid="R8")
+    except _absint.Unknown as u:
+        r8.viol("R8:undecided", "t_macro_inner cannot be interpreted on the current code (%s): not decided on this tree (fail closed)" % str(u)[:300])
+    return rules + [r4_emission(ctx), r5_pairing(ctx), r6_display(ctx), r7, r8]
 
 
 MANIFEST_ENTRY = {
